@@ -2,6 +2,7 @@
 # Evaluates a seeded change without touching /repo: applies the patch in a scratch worktree and runs checks against it.
 # usage: seedcheck.sh <patch.diff> <tier> <PROP>...      (prints one line per property: DETECTED / missed)
 set -u
+V=$(cd "$(dirname "$0")/.." && pwd)   # the checkout this tool belongs to (a snapshot of /verif works too)
 PATCH=$(readlink -f "$1"); TIER=$2; shift 2
 WT=/tmp/seedwt-$$
 git -C /repo worktree add -q --detach $WT HEAD || exit 2
@@ -10,7 +11,7 @@ git -C $WT apply "$PATCH" || { echo "seedcheck: patch does not apply"; exit 2; }
 export VERIF_REPO=$WT VERIF_BUILD=/tmp/seedbuild-$$
 mkdir -p $VERIF_BUILD
 for P in "$@"; do
-  OUT=$(cd /verif && VERIF_EVIDENCE_DIR=$VERIF_BUILD/evidence VERIF_REPLAY_DIR=$VERIF_BUILD/replays ./check $P $TIER 2>&1); RC=$?
+  OUT=$(cd $V && VERIF_EVIDENCE_DIR=$VERIF_BUILD/evidence VERIF_REPLAY_DIR=$VERIF_BUILD/replays ./check $P $TIER 2>&1); RC=$?
   [ -n "${KEEP_REPLAYS:-}" ] && mkdir -p "$KEEP_REPLAYS" && cp $VERIF_BUILD/replays/*.json "$KEEP_REPLAYS"/ 2>/dev/null
   if [ $RC -eq 1 ]; then echo "$P DETECTED: $(echo "$OUT" | grep '^violation' | head -2 | tr '\n' ' ' | cut -c1-300)";
   elif [ $RC -eq 0 ]; then echo "$P missed ($(echo "$OUT" | tail -1 | cut -c1-120))";
